@@ -110,6 +110,9 @@ def step (s : St) (line : String) : St × String :=
     | _, _, _, _, _, _, _, _ => (s, "bad-op")
   | ["sess-register"] =>
     ({ s with sessDefn := none, sessCached := none, tags := [], cmds := [], nodes := [], xnodes := [] }, "ok")
+  | ["sess-register-keep"] =>
+    -- re-registration while the aggregator still holds the engine's data: the definition stays, the cache is cleared
+    ({ s with sessCached := none, tags := [], cmds := [], nodes := [], xnodes := [] }, "ok")
   | ["sess-uodinfo"] =>
     -- the tags / commands transmitted since the last session op are the definition the aggregator now holds
     ({ s with sessDefn := some (s.tags, s.cmds), tags := [], cmds := [], nodes := [], xnodes := [] }, "ok")
